@@ -112,6 +112,11 @@ class Gen(object):
             if self.rng.random() < 0.5:
                 other.append(('r', nm, 0))
             return {'k': 'ifexp', 'name': nm, 'site': 0, 'body': arm, 'orelse': other}
+        if r < 0.385:
+            # cond and (name := value)  /  cond or (name := value): the walrus runs only when the left operand lets it
+            nm = self.name()
+            self.maybe.add(nm)
+            return {'k': 'boolw', 'name': nm, 'site': 0, 'op': self.rng.choice(['and', 'or']), 'left': [a for a in self.expr(0, 1) if a[0] == 'r']}
         if r < 0.42:
             # a decorated def / class statement: decorator expressions are read in the enclosing body, then the name is bound
             nm = self.name()
@@ -363,6 +368,9 @@ def number(body):
             s['body'] = ex(s['body'])
             s['site'] = f('bind', s['name'])
             s['orelse'] = ex(s['orelse'])
+        elif k == 'boolw':
+            s['left'] = ex(s['left'])
+            s['site'] = f('bind', s['name'])
         elif k == 'if':
             s['test'] = ex(s['test'])
             s['body'] = blk(s['body'])
@@ -423,6 +431,8 @@ def bound_names(body):
             elif k == 'ifexp':
                 ex(s['body'])
                 ex(s['orelse'])
+                out.add(s['name'])
+            elif k == 'boolw':
                 out.add(s['name'])
             elif k in ('if', 'while'):
                 ex(s['test'])
@@ -533,6 +543,11 @@ def render(body, flavour='func', pre=None, layout=None):
             R.site_pos[s['site']] = (line, s['name'])
             text += ' if _vo.d((%s := _vo.b(%d))) else ' % (s['name'], s['site'])
             out.append(text + expr(s['orelse'], line, len(text)))
+        elif k == 'boolw':
+            R.site_pos[s['site']] = (line, s['name'])
+            head = pad + '_vo.e('
+            left = expr(s['left'], line, len(head), fn='_vo.d')
+            out.append(head + left + ' %s (%s := _vo.b(%d)))' % (s['op'], s['name'], s['site']))
         elif k == 'defstmt':
             # the decorator replaces the function / class by the token of this binding site
             head = pad + '@_vo.dk(%d, ' % s['site']
@@ -708,6 +723,10 @@ def reduce_nodes(body):
             return seq(ex(s['value']))
         if k == 'defstmt':
             return seq(ex(s['decos']) + [new(k='bind', n=s['name'], s=s['site'])])
+        if k == 'boolw':
+            # one decision: _vo.d() true -> decision 0 = the body of the if node; `and` binds then, `or` binds otherwise
+            b = seq([new(k='bind', n=s['name'], s=s['site'])])
+            return new(k='if', c=[seq(ex(s['left'])), b, 0] if s['op'] == 'and' else [seq(ex(s['left'])), 0, b])
         if k == 'ifexp':
             return seq([new(k='bind', n=s['name'], s=s['site']),
                         new(k='if', c=[0, seq(ex(s['body'])), seq(ex(s['orelse']))])])
